@@ -507,6 +507,9 @@ def run(ck: Check):
             add("class_list", {"op": "class_list", "classes": g_classes(r)})
         for _ in range(80 * N if gen_cores else 0):
             add("types", {"op": "types", "types": g_types(r)})
+        for tw in (["bool", "object", "XmlDateTime", "object", "bytes"], ["bytes", "XmlDateTime", "object", "QName"],
+                   ["object", "Decimal", "XmlDuration", "bytes", "XmlPeriod", "XmlTime"], ["bytes", "object"], ["object", "bytes"]):
+            add("types", {"op": "types", "types": tw})
         add("types_direct", {"op": "sort_types_direct", "order": ["bytes", "object"]})
         add("types_direct", {"op": "sort_types_direct", "order": ["object", "bytes"]})
         add("types_direct", {"op": "sort_types_direct", "order": ["str", "object", "int", "bytes"]})
@@ -658,6 +661,12 @@ def run(ck: Check):
                 items.append((si, i))
                 terms.append(f"({c_lstr(x['native'])}, {c_lstr(x['sorted'])})")
                 distinct.add(("types", tuple(x["native"])))
+        # regression oracle of /repo 4392a4a: native_types = the declared types, de-duplicated in declared order
+        nterms = [f"({c_lstr(ops[i]['types'])}, {c_lstr(per_seed[si][i]['native'])})" for si, i in items]
+        for si, i in coq("native_agree", "list str * list str", "agree_native", items, nterms):
+            ck.failure("native-types-tie-order" if {"bytes", "object"} <= set(ops[i]["types"]) else "corr-native-types",
+                       f"Attr.native_types is not the declared types de-duplicated in declared order (seed {core_seeds[si]}): "
+                       f"declared {ops[i]['types']}, got {per_seed[si][i]['native']}", {"op": ops[i], "impl": per_seed[si][i], "hashseed": core_seeds[si]})
         for si, i in coq("types_agree", "list str * list str", "agree_types", items, terms):
             ck.failure("corr-sort-types", "model and implementation disagree on sort_types(native_types)", {"op": ops[i], "impl": per_seed[si][i]})
         unguarded = {(si, i) for si, i in coq("types_guard", "list str * list str", "guard_types", items, terms)}
@@ -666,13 +675,14 @@ def run(ck: Check):
             a = per_seed[0][i]
             for si in range(1, len(per_seed)):
                 b = per_seed[si][i]
-                if a["sorted"] != b["sorted"]:
+                if a["sorted"] != b["sorted"] or a["native"] != b["native"]:
                     cls = "native-types-tie-order" if (0, i) in unguarded else "native-types-seed-dependent"
                     ck.failure(cls, f"sort_types(native_types) differs between hash seeds {core_seeds[0]} and {core_seeds[si]}",
                                {"op": ops[i], "a": a, "b": b})
-            for si in range(len(per_seed)):
-                if (0, i) in unguarded:
-                    tie_orders.add(tuple(t for t in per_seed[si][i]["native"] if t in ("bytes", "object")))
+            if (0, i) in unguarded:
+                per_input = {tuple(t for t in per_seed[si][i]["native"] if t in ("bytes", "object")) for si in range(len(per_seed))}
+                if len(per_input) > 1:   # the same input, another order under another seed
+                    tie_orders |= per_input
         d = [per_seed[0][i] for i in idx("types_direct")][-3:]
         dterms = [f"({c_lstr(ops[i]['order'])}, {c_lstr(per_seed[0][i]['sorted'])})" for i in idx("types_direct")]
         for i in coq("types_direct", "list str * list str", "agree_types", idx("types_direct"), dterms):
@@ -680,10 +690,10 @@ def run(ck: Check):
         ck.cov["native_types_tie"] = {
             "function_level_witness_reproduced": d[0]["sorted"] != d[1]["sorted"][::-1] or d[0]["sorted"] == ["bytes", "object"],
             "sort_types([bytes,object])": d[0]["sorted"], "sort_types([object,bytes])": d[1]["sorted"],
-            "orders_of_{bytes,object}_seen_in_native_types_over_all_seeds": sorted(map(list, tie_orders)),
+            "orders_of_{bytes,object}_that_varied_for_one_input_across_seeds": sorted(map(list, tie_orders)),
             "unguarded_cases": len({i for _, i in unguarded}),
-            "verdict": ("the relative order of bytes and object in list(set(types)) varied between the runs (known finding native-types-tie-order)"
-                        if len(tie_orders) > 1 else "the relative order of bytes and object did not vary in this run")}
+            "verdict": ("REGRESSION: the relative order of bytes and object in native_types varied between the runs (fixed finding native-types-tie-order)"
+                        if len(tie_orders) > 1 else "native_types follows the declared order (fix /repo 4392a4a); sort_types still keeps its argument order for the tie")}
 
         # ---- sequence renumbering
         same_everywhere("reset", lambda x: x.get("ok"))
